@@ -9,6 +9,7 @@
  R5 CLI pairing: FASTA and its .agp are written from the same assembly object, default line length / gap char
  R6 random access: the first byte sought is the faidx offset of the interval's first residue and the number
     of bytes read equals the interval length (algebraic identity under the division axioms)
+ R7 gap rendering: the gap iterator's chunks tile [0, length) exactly (every gap is that many characters)
 """
 
 from __future__ import annotations
@@ -21,7 +22,7 @@ from ..model import AnalysisError, Func, Repo, dotted, is_name, norm, walk_shall
 from ..report import Ledger
 from ..sym import B, Const, Lin, Range, State, Sym, SymExec, Tup, as_lin, b_not, cmp_lin, opaque, NotNumeric
 from ..util import kw
-from .shared import chunker_siblings
+from .shared import chunker_siblings, gap_iter_exact
 
 PROP = "C03"
 LEVEL = "other"
@@ -44,6 +45,7 @@ def run(repo: Repo, L: Ledger, tier: str):
     L.rule("R4", "'>name' header first; one record per scaffold in order")
     L.rule("R5", "CLI writes FASTA and .agp from the same assembly object with default width / gap character")
     L.rule("R6", "sequence_bytes: seek == faidx offset of first residue; Σ read sizes == interval length")
+    L.rule("R7", "gap iterator: chunks tile [0, length) exactly — a gap is rendered as exactly that many characters")
 
     fs = repo.cls("FastaStream")
     fi = repo.cls("FastaIndex")
@@ -139,6 +141,9 @@ def run(repo: Repo, L: Ledger, tier: str):
 
     # ---- R6
     _random_access(repo, L, fi)
+
+    # ---- R7
+    gap_iter_exact(repo, L, "R7")
 
 
 def _anc(x, stop):
